@@ -1,1 +1,1478 @@
-// shared helpers for the scrunchmc harness binaries
+//! C19 -- bounded-exhaustive checks of /repo/scrunch against boring oracles written here.
+//!
+//! Two subjects:
+//!   * documents: `scrunch::CompressedDocument` (and, reported separately, the crate's own
+//!     `ReferenceDocument`) against a naive scan of the original text (`naive_*` below);
+//!   * bit vectors: every `scrunch::bit_vector::BitVector` implementation against a `Vec<bool>`
+//!     (`BitOracle` below).
+//!
+//! Semantics the oracles encode (worked out from the crate; see the report's rule):
+//!   access(i)  = Some(bit i)                      for i <  len, None otherwise
+//!   rank(i)    = Some(#ones at positions < i)     for i <= len, None otherwise   (exclusive)
+//!   rank0(i)   = Some(i - rank(i))                for i <= len, None otherwise
+//!   select(k)  = Some(min{p : rank(p) = k})       i.e. select(0) = 0 and, for 1 <= k <= #ones,
+//!                (0-based index of the k-th one) + 1; None for k > #ones
+//!   select0(k) = the same over zeros.
+//! The trait documentation only says "Select the x'th bit from this set.  An index."; the
+//! position-plus-one convention comes from `ReferenceBitVector`, the crate's test tables and the
+//! default implementation (binary search for the smallest p with rank(p) = k).
+
+use std::collections::{BTreeMap, HashSet};
+
+use buffertk::Unpackable;
+use scrunch::bit_vector::BitVector;
+use scrunch::builder::Builder;
+use scrunch::{CompressedDocument, Document, Error, RecordOffset, ReferenceDocument, TextOffset};
+use vcore::{Report, Value, Violation, json};
+
+pub const PROPERTY: &str = "C19";
+
+////////////////////////////////////////////// Finding /////////////////////////////////////////////
+
+/// One failed comparison.  `size` orders findings of one signature so that the smallest case is
+/// the one that is kept.
+#[derive(Clone, Debug)]
+pub struct Finding {
+    pub sig: String,
+    pub detail: String,
+    pub case: Value,
+    pub size: (usize, usize, usize),
+}
+
+/// Normalise a panic message: digits collapse so that one defect is one signature.
+pub fn norm_panic(msg: &str) -> String {
+    let mut out = String::new();
+    let mut in_digits = false;
+    for c in msg.chars() {
+        if c.is_ascii_digit() {
+            if !in_digits {
+                out.push('N');
+            }
+            in_digits = true;
+        } else {
+            in_digits = false;
+            out.push(c);
+        }
+    }
+    if out.len() > 90 {
+        let mut cut = 90;
+        while !out.is_char_boundary(cut) {
+            cut -= 1;
+        }
+        out.truncate(cut);
+    }
+    out
+}
+
+fn err_variant(e: &Error) -> String {
+    let s = format!("{e:?}");
+    s.split('(').next().unwrap_or("").to_string()
+}
+
+/////////////////////////////////////////// accumulation ///////////////////////////////////////////
+
+/// Per-thread accumulator: a vcore::Report for the counters plus the smallest case per signature.
+pub struct Acc {
+    pub report: Report,
+    pub best: BTreeMap<String, Vec<Finding>>,
+    pub sig_counts: BTreeMap<String, u64>,
+    pub non_reproducible: u64,
+}
+
+impl Acc {
+    pub fn new(job: &str) -> Self {
+        Acc {
+            report: Report::new(job, PROPERTY),
+            best: BTreeMap::new(),
+            sig_counts: BTreeMap::new(),
+            non_reproducible: 0,
+        }
+    }
+
+    pub fn add(&mut self, f: Finding) {
+        *self.sig_counts.entry(f.sig.clone()).or_insert(0) += 1;
+        let v = self.best.entry(f.sig.clone()).or_default();
+        v.push(f);
+        v.sort_by_key(|f| f.size);
+        v.truncate(2);
+    }
+
+    pub fn merge(&mut self, other: Acc) {
+        self.report.merge(other.report);
+        for (k, n) in other.sig_counts {
+            *self.sig_counts.entry(k).or_insert(0) += n;
+        }
+        for (k, fs) in other.best {
+            let v = self.best.entry(k).or_default();
+            v.extend(fs);
+            v.sort_by_key(|f| f.size);
+            v.truncate(2);
+        }
+        self.non_reproducible += other.non_reproducible;
+    }
+
+    /// Move the kept findings into the report.
+    pub fn seal(mut self) -> Report {
+        for (sig, fs) in std::mem::take(&mut self.best) {
+            for f in fs {
+                self.report.violations.push(Violation {
+                    property: PROPERTY.to_string(),
+                    signature: sig.clone(),
+                    detail: f.detail,
+                    case: f.case,
+                });
+            }
+        }
+        self.report.violation_sigs = self.sig_counts.clone();
+        if self.non_reproducible > 0 {
+            self.report
+                .count("non_reproducible_findings", self.non_reproducible);
+        }
+        self.report
+    }
+}
+
+/// Run `work(item, acc)` over the items on `threads` threads, in item order (small first).  A
+/// watchdog turns a hung subject call into a machinery exit (code 2) naming the item.
+pub fn run_parallel<T: Sync>(
+    items: &[T],
+    threads: usize,
+    job: &str,
+    stall_secs: u64,
+    describe: impl Fn(&T) -> String + Sync,
+    work: impl Fn(&T, &mut Acc) + Sync,
+) -> Acc {
+    use std::sync::atomic::{AtomicBool, AtomicU64, AtomicUsize, Ordering};
+    let threads = threads.max(1);
+    let next = AtomicUsize::new(0);
+    let done = AtomicBool::new(false);
+    // per thread: item index + 1 (0 = idle/finished)
+    let current: Vec<AtomicU64> = (0..threads).map(|_| AtomicU64::new(0)).collect();
+    let mut total = Acc::new(job);
+    let accs: Vec<Acc> = std::thread::scope(|s| {
+        let mut hs = vec![];
+        for t in 0..threads {
+            let next = &next;
+            let current = &current;
+            let work = &work;
+            hs.push(s.spawn(move || {
+                let mut acc = Acc::new(job);
+                loop {
+                    let i = next.fetch_add(1, Ordering::Relaxed);
+                    if i >= items.len() {
+                        break;
+                    }
+                    current[t].store(i as u64 + 1, Ordering::Relaxed);
+                    work(&items[i], &mut acc);
+                }
+                current[t].store(0, Ordering::Relaxed);
+                acc
+            }));
+        }
+        let current = &current;
+        let done_ref = &done;
+        let describe = &describe;
+        s.spawn(move || {
+            let mut last: Vec<(u64, std::time::Instant)> = (0..threads)
+                .map(|_| (0, std::time::Instant::now()))
+                .collect();
+            while !done_ref.load(Ordering::Relaxed) {
+                std::thread::sleep(std::time::Duration::from_millis(200));
+                for t in 0..threads {
+                    let c = current[t].load(Ordering::Relaxed);
+                    if c != last[t].0 {
+                        last[t] = (c, std::time::Instant::now());
+                    } else if c != 0 && last[t].1.elapsed().as_secs() >= stall_secs {
+                        eprintln!(
+                            "MACHINERY: no progress for {stall_secs} s on item {}",
+                            describe(&items[c as usize - 1])
+                        );
+                        std::process::exit(2);
+                    }
+                }
+            }
+        });
+        let out: Vec<Acc> = hs
+            .into_iter()
+            .map(|h| h.join().expect("worker panicked"))
+            .collect();
+        done.store(true, Ordering::Relaxed);
+        out
+    });
+    for a in accs {
+        total.merge(a);
+    }
+    total
+}
+
+///////////////////////////////////////////// documents ////////////////////////////////////////////
+
+/// The naive scan: positions at which `pat` occurs in `text`.  The empty pattern follows the
+/// crate's stated convention ("everything except the artificial end marker"): every offset
+/// 0..len, not len itself.
+pub fn naive_search(text: &[u32], pat: &[u32], out: &mut Vec<usize>) {
+    out.clear();
+    let n = text.len();
+    let m = pat.len();
+    if m == 0 {
+        out.extend(0..n);
+        return;
+    }
+    if m > n {
+        return;
+    }
+    let mut i = 0;
+    while i + m <= n {
+        let mut j = 0;
+        while j < m && text[i + j] == pat[j] {
+            j += 1;
+        }
+        if j == m {
+            out.push(i);
+        }
+        i += 1;
+    }
+}
+
+/// The record that holds `offset` (offset < len), by walking the boundaries.
+pub fn naive_lookup(bounds: &[usize], offset: usize) -> usize {
+    let mut rec = 0;
+    for (r, b) in bounds.iter().enumerate() {
+        if *b <= offset {
+            rec = r;
+        }
+    }
+    rec
+}
+
+pub fn naive_record<'a>(text: &'a [u32], bounds: &[usize], r: usize) -> &'a [u32] {
+    let start = bounds[r];
+    let limit = if r + 1 < bounds.len() {
+        bounds[r + 1]
+    } else {
+        text.len()
+    };
+    &text[start..limit]
+}
+
+/// Which patterns a document is asked.
+#[derive(Clone, Debug)]
+pub enum PatPlan {
+    /// every pattern of length 0..=max_len over `symbols`, then the `extra` patterns
+    All {
+        symbols: Vec<u32>,
+        max_len: usize,
+        extra: Vec<Vec<u32>>,
+    },
+    /// an explicit list (long structured texts)
+    List(Vec<Vec<u32>>),
+    /// a single pattern (replay)
+    Single(Vec<u32>),
+    None,
+}
+
+pub fn for_each_pattern(plan: &PatPlan, mut f: impl FnMut(&[u32])) {
+    match plan {
+        PatPlan::None => {}
+        PatPlan::Single(p) => f(p),
+        PatPlan::List(ps) => {
+            for p in ps {
+                f(p);
+            }
+        }
+        PatPlan::All {
+            symbols,
+            max_len,
+            extra,
+        } => {
+            let k = symbols.len();
+            let mut pat: Vec<u32> = vec![];
+            f(&pat);
+            for m in 1..=*max_len {
+                let mut digits = vec![0usize; m];
+                pat.clear();
+                pat.resize(m, symbols[0]);
+                loop {
+                    f(&pat);
+                    // increment the odometer
+                    let mut pos = m;
+                    let mut carried_out = true;
+                    while pos > 0 {
+                        pos -= 1;
+                        digits[pos] += 1;
+                        if digits[pos] < k {
+                            pat[pos] = symbols[digits[pos]];
+                            carried_out = false;
+                            break;
+                        }
+                        digits[pos] = 0;
+                        pat[pos] = symbols[0];
+                    }
+                    if carried_out {
+                        break;
+                    }
+                }
+            }
+            for p in extra {
+                f(p);
+            }
+        }
+    }
+}
+
+/// The reduced pattern set used where the full product (texts x boundary sets x patterns) is
+/// over budget: every pattern of length <= 2 over `symbols`, every substring of the text (so
+/// every occurrence that crosses a record boundary is asked for), and every substring extended by
+/// one symbol of `symbols` on either side (the shortest absent patterns), plus `extra`.
+pub fn reduced_patterns(text: &[u32], symbols: &[u32], extra: &[Vec<u32>]) -> Vec<Vec<u32>> {
+    let mut out: Vec<Vec<u32>> = vec![];
+    for_each_pattern(
+        &PatPlan::All {
+            symbols: symbols.to_vec(),
+            max_len: 2,
+            extra: vec![],
+        },
+        |p| out.push(p.to_vec()),
+    );
+    let n = text.len();
+    for i in 0..n {
+        for j in i + 1..=n {
+            let sub = &text[i..j];
+            out.push(sub.to_vec());
+            for s in symbols {
+                let mut a = vec![*s];
+                a.extend_from_slice(sub);
+                out.push(a);
+                let mut b = sub.to_vec();
+                b.push(*s);
+                out.push(b);
+            }
+        }
+    }
+    out.extend(extra.iter().cloned());
+    out.sort();
+    out.dedup();
+    out
+}
+
+#[derive(Default, Clone, Debug)]
+pub struct DocStats {
+    pub calls: u64,
+    pub patterns: u64,
+    pub patterns_present: u64,
+    pub occurrences: u64,
+    pub occurrences_crossing_boundary: u64,
+    pub oob_lookup_ok: u64,
+    pub oob_lookup_err: u64,
+    pub ref_pattern_checks: u64,
+}
+
+fn doc_case(text: &[u32], bounds: &[usize], pat: Option<&[u32]>) -> Value {
+    json!({
+        "kind": "doc",
+        "text": text,
+        "bounds": bounds,
+        "pattern": pat,
+    })
+}
+
+struct DocCtx<'a> {
+    text: &'a [u32],
+    bounds: &'a [usize],
+    distinct: Vec<u32>,
+}
+
+impl DocCtx<'_> {
+    fn finding(&self, sig: String, detail: String, pat: Option<&[u32]>) -> Finding {
+        Finding {
+            sig,
+            detail: format!(
+                "{detail}; text={:?} bounds={:?}{}",
+                self.text,
+                self.bounds,
+                match pat {
+                    Some(p) => format!(" pattern={p:?}"),
+                    None => String::new(),
+                }
+            ),
+            case: doc_case(self.text, self.bounds, pat),
+            size: (
+                self.text.len(),
+                self.bounds.len(),
+                pat.map(|p| p.len()).unwrap_or(0),
+            ),
+        }
+    }
+
+    fn pat_class(&self, pat: &[u32], expected: &[usize]) -> &'static str {
+        if pat.is_empty() {
+            "empty-pattern"
+        } else if pat.len() > self.text.len() {
+            "pattern-longer-than-text"
+        } else if pat.iter().any(|s| !self.distinct.contains(s)) {
+            "pattern-with-absent-symbol"
+        } else if expected.is_empty() {
+            "pattern-absent"
+        } else {
+            "pattern-present"
+        }
+    }
+}
+
+/// Compare one `Result`-returning call with its expectation; the signature carries the operation,
+/// the way it failed and the class of the argument.
+fn judge<T: PartialEq + std::fmt::Debug>(
+    subj: &str,
+    op: &str,
+    class: &str,
+    observed: Result<Result<T, Error>, String>,
+    expected: Option<&T>, // None: an error is expected (anything but a panic or Ok)
+) -> Option<(String, String)> {
+    match (observed, expected) {
+        (Err(p), _) => Some((
+            format!("{subj}:{op}:panic({}):{class}", norm_panic(&p)),
+            format!("{op} panicked: {p}; expected {expected:?}"),
+        )),
+        (Ok(Err(e)), Some(x)) => Some((
+            format!("{subj}:{op}:err({}):{class}", err_variant(&e)),
+            format!("{op} returned Err({e:?}); expected {x:?}"),
+        )),
+        (Ok(Ok(got)), Some(x)) => {
+            if &got == x {
+                None
+            } else {
+                Some((
+                    format!("{subj}:{op}:wrong-answer:{class}"),
+                    format!("{op} returned {got:?}; expected {x:?}"),
+                ))
+            }
+        }
+        (Ok(Err(_)), None) => None,
+        (Ok(Ok(got)), None) => Some((
+            format!("{subj}:{op}:accepted-out-of-range:{class}"),
+            format!("{op} returned Ok({got:?}) for an argument that names nothing; expected an error"),
+        )),
+    }
+}
+
+fn check_structure<D: Document>(
+    subj: &str,
+    d: &D,
+    cx: &DocCtx,
+    st: &mut DocStats,
+    outcomes: &mut HashSet<u64>,
+    out: &mut Vec<Finding>,
+) {
+    let text = cx.text;
+    let bounds = cx.bounds;
+    let n = text.len();
+    // len / is_empty / records
+    st.calls += 3;
+    match vcore::catch(|| (d.len(), d.is_empty(), d.records())) {
+        Err(p) => out.push(cx.finding(
+            format!("{subj}:len-records:panic({})", norm_panic(&p)),
+            format!("len/is_empty/records panicked: {p}"),
+            None,
+        )),
+        Ok((l, e, r)) => {
+            outcomes.insert(vcore::stable_hash(&("len", l, e, r)));
+            if l != n {
+                out.push(cx.finding(
+                    format!("{subj}:len:wrong-answer"),
+                    format!("len() = {l}; expected {n}"),
+                    None,
+                ));
+            }
+            if e != (n == 0) {
+                out.push(cx.finding(
+                    format!("{subj}:is_empty:wrong-answer"),
+                    format!("is_empty() = {e}; expected {}", n == 0),
+                    None,
+                ));
+            }
+            if r != bounds.len() {
+                out.push(cx.finding(
+                    format!("{subj}:records:wrong-answer"),
+                    format!("records() = {r}; expected {}", bounds.len()),
+                    None,
+                ));
+            }
+        }
+    }
+    // lookup at every offset
+    for off in 0..n {
+        st.calls += 1;
+        let obs = vcore::catch(|| d.lookup(TextOffset(off)).map(|r| r.0));
+        if let Ok(Ok(r)) = &obs {
+            outcomes.insert(vcore::stable_hash(&("lookup", off, *r)));
+        }
+        let exp = naive_lookup(bounds, off);
+        let class = if bounds.contains(&off) {
+            "offset-is-record-start"
+        } else if bounds.contains(&(off + 1)) {
+            "offset-is-record-end"
+        } else {
+            "offset-inside-record"
+        };
+        if let Some((sig, detail)) = judge(subj, "lookup", class, obs, Some(&exp)) {
+            out.push(cx.finding(sig, format!("offset {off}: {detail}"), None));
+        }
+    }
+    // offsets that name no symbol: anything but a panic is admitted (the property is silent)
+    for off in [n, n + 1, usize::MAX] {
+        st.calls += 1;
+        match vcore::catch(|| d.lookup(TextOffset(off)).map(|r| r.0)) {
+            Err(p) => out.push(cx.finding(
+                format!("{subj}:lookup:panic({}):offset-past-end", norm_panic(&p)),
+                format!("lookup({off}) panicked: {p}; expected an error or a record"),
+                None,
+            )),
+            Ok(Ok(_)) => {
+                if subj == "doc" {
+                    st.oob_lookup_ok += 1
+                }
+            }
+            Ok(Err(_)) => {
+                if subj == "doc" {
+                    st.oob_lookup_err += 1
+                }
+            }
+        }
+    }
+    // offset_of and retrieve of every record, and of records that do not exist
+    for r in 0..bounds.len() {
+        st.calls += 2;
+        let obs = vcore::catch(|| d.offset_of(RecordOffset(r)).map(|t| t.0));
+        let class = if r == 0 {
+            "first-record"
+        } else if r + 1 == bounds.len() {
+            "last-record"
+        } else {
+            "middle-record"
+        };
+        if let Some((sig, detail)) = judge(subj, "offset_of", class, obs, Some(&bounds[r])) {
+            out.push(cx.finding(sig, format!("record {r}: {detail}"), None));
+        }
+        let obs = vcore::catch(|| d.retrieve(RecordOffset(r)));
+        if let Ok(Ok(v)) = &obs {
+            outcomes.insert(vcore::stable_hash(&("retrieve", v)));
+        }
+        let exp = naive_record(text, bounds, r).to_vec();
+        if let Some((sig, detail)) = judge(subj, "retrieve", class, obs, Some(&exp)) {
+            out.push(cx.finding(sig, format!("record {r}: {detail}"), None));
+        }
+    }
+    for r in [bounds.len(), bounds.len() + 1, usize::MAX] {
+        st.calls += 2;
+        let obs = vcore::catch(|| d.offset_of(RecordOffset(r)).map(|t| t.0));
+        if let Some((sig, detail)) = judge(subj, "offset_of", "record-past-end", obs, None) {
+            out.push(cx.finding(sig, format!("record {r}: {detail}"), None));
+        }
+        let obs = vcore::catch(|| d.retrieve(RecordOffset(r)));
+        if let Some((sig, detail)) = judge(subj, "retrieve", "record-past-end", obs, None) {
+            out.push(cx.finding(sig, format!("record {r}: {detail}"), None));
+        }
+    }
+}
+
+fn check_one_pattern<D: Document>(
+    subj: &str,
+    d: &D,
+    cx: &DocCtx,
+    pat: &[u32],
+    expected: &[usize],
+    st: &mut DocStats,
+    outcomes: &mut HashSet<u64>,
+    out: &mut Vec<Finding>,
+) {
+    st.calls += 2;
+    let class = cx.pat_class(pat, expected);
+    // search, as a sorted set
+    let obs = vcore::catch(|| {
+        d.search(pat)
+            .map(|it| it.map(|t| t.0).collect::<Vec<usize>>())
+    });
+    match obs {
+        Ok(Ok(mut got)) => {
+            got.sort();
+            if !got.is_empty() {
+                outcomes.insert(vcore::stable_hash(&("search", &got)));
+            }
+            if got.as_slice() != expected {
+                let dup = got.windows(2).any(|w| w[0] == w[1]);
+                let missing = expected.iter().any(|p| !got.contains(p));
+                let extra = got.iter().any(|p| !expected.contains(p));
+                let how = match (dup, missing, extra) {
+                    (_, true, true) => "missing-and-extra-positions",
+                    (_, true, false) => "missing-positions",
+                    (_, false, true) => "extra-positions",
+                    (true, false, false) => "duplicate-positions",
+                    _ => "differs",
+                };
+                out.push(cx.finding(
+                    format!("{subj}:search:{how}:{class}"),
+                    format!("search returned {got:?}; the naive scan finds {expected:?}"),
+                    Some(pat),
+                ));
+            }
+        }
+        other => {
+            let exp = expected.to_vec();
+            if let Some((sig, detail)) = judge(subj, "search", class, other, Some(&exp)) {
+                out.push(cx.finding(sig, detail, Some(pat)));
+            }
+        }
+    }
+    // count
+    let obs = vcore::catch(|| d.count(pat));
+    if let Ok(Ok(c)) = &obs {
+        if *c > 0 {
+            outcomes.insert(vcore::stable_hash(&("count", *c)));
+        }
+    }
+    if let Some((sig, detail)) = judge(subj, "count", class, obs, Some(&expected.len())) {
+        out.push(cx.finding(sig, detail, Some(pat)));
+    }
+}
+
+fn construct_with<D: Document>(text: &[u32], bounds: &[usize]) -> Result<Result<Vec<u8>, Error>, String> {
+    vcore::catch(|| {
+        let mut buf = Vec::new();
+        let mut builder = Builder::new(&mut buf);
+        let r = D::construct(text.to_vec(), bounds.to_vec(), &mut builder);
+        drop(builder);
+        r.map(|_| buf)
+    })
+}
+
+/// Everything that is asked of one document (text + record boundaries, both valid for the
+/// crate's API: boundaries start at 0, strictly increase and stay below the text length).
+///
+/// `ref_patterns`: also ask the crate's ReferenceDocument every pattern (its search ignores the
+/// boundaries by construction, so the driver asks it once per text).
+/// `reparse_full`: ask the re-parsed copy every pattern too (replay); otherwise it is asked the
+/// structural queries, every pattern of length <= 2 and the whole text.
+pub fn check_doc(
+    text: &[u32],
+    bounds: &[usize],
+    plan: &PatPlan,
+    ref_patterns: bool,
+    reparse_full: bool,
+    st: &mut DocStats,
+    outcomes: &mut HashSet<u64>,
+    out: &mut Vec<Finding>,
+) {
+    let mut distinct: Vec<u32> = text.to_vec();
+    distinct.sort();
+    distinct.dedup();
+    let cx = DocCtx {
+        text,
+        bounds,
+        distinct,
+    };
+    // the crate's reference
+    let rbuf = match construct_with::<ReferenceDocument>(text, bounds) {
+        Ok(Ok(b)) => Some(b),
+        Ok(Err(e)) => {
+            out.push(cx.finding(
+                format!("refdoc:construct:err({})", err_variant(&e)),
+                format!("ReferenceDocument::construct returned Err({e:?}) for a valid text"),
+                None,
+            ));
+            None
+        }
+        Err(p) => {
+            out.push(cx.finding(
+                format!("refdoc:construct:panic({})", norm_panic(&p)),
+                format!("ReferenceDocument::construct panicked: {p}"),
+                None,
+            ));
+            None
+        }
+    };
+    let cbuf = match construct_with::<CompressedDocument>(text, bounds) {
+        Ok(Ok(b)) => Some(b),
+        Ok(Err(e)) => {
+            out.push(cx.finding(
+                format!("doc:construct:err({})", err_variant(&e)),
+                format!("CompressedDocument::construct returned Err({e:?}) for a valid text"),
+                None,
+            ));
+            None
+        }
+        Err(p) => {
+            out.push(cx.finding(
+                format!("doc:construct:panic({})", norm_panic(&p)),
+                format!("CompressedDocument::construct panicked: {p}"),
+                None,
+            ));
+            None
+        }
+    };
+    st.calls += 2;
+    let reference = match &rbuf {
+        Some(b) => match vcore::catch(|| ReferenceDocument::unpack(b).map(|x| x.0)) {
+            Ok(Ok(d)) => Some(d),
+            Ok(Err(e)) => {
+                out.push(cx.finding(
+                    format!("refdoc:unpack:err({})", err_variant(&e)),
+                    format!("ReferenceDocument::unpack of its own bytes returned Err({e:?})"),
+                    None,
+                ));
+                None
+            }
+            Err(p) => {
+                out.push(cx.finding(
+                    format!("refdoc:unpack:panic({})", norm_panic(&p)),
+                    format!("ReferenceDocument::unpack panicked: {p}"),
+                    None,
+                ));
+                None
+            }
+        },
+        None => None,
+    };
+    if let Some(r) = &reference {
+        check_structure("refdoc", r, &cx, st, outcomes, out);
+    }
+    let Some(cbuf) = cbuf else {
+        return;
+    };
+    // serialising twice gives the same bytes
+    if let Ok(Ok(again)) = construct_with::<CompressedDocument>(text, bounds) {
+        st.calls += 1;
+        if again != cbuf {
+            out.push(cx.finding(
+                "doc:construct:bytes-differ-between-runs".into(),
+                "two constructions of the same document produced different bytes".into(),
+                None,
+            ));
+        }
+    }
+    // a second parse, from a copy at a different address/alignment
+    let mut shifted = vec![0xa5u8];
+    shifted.extend_from_slice(&cbuf);
+    st.calls += 2;
+    let doc_a = match vcore::catch(|| CompressedDocument::unpack(&cbuf)) {
+        Ok(Ok((d, rest))) => {
+            if !rest.is_empty() {
+                out.push(cx.finding(
+                    "doc:unpack:leftover-bytes".into(),
+                    format!("unpack left {} bytes unread", rest.len()),
+                    None,
+                ));
+            }
+            Some(d)
+        }
+        Ok(Err(e)) => {
+            out.push(cx.finding(
+                format!("doc:unpack:err({})", err_variant(&e)),
+                format!("CompressedDocument::unpack of freshly constructed bytes returned Err({e:?})"),
+                None,
+            ));
+            None
+        }
+        Err(p) => {
+            out.push(cx.finding(
+                format!("doc:unpack:panic({})", norm_panic(&p)),
+                format!("CompressedDocument::unpack panicked: {p}"),
+                None,
+            ));
+            None
+        }
+    };
+    let doc_b = match vcore::catch(|| CompressedDocument::unpack(&shifted[1..])) {
+        Ok(Ok((d, _))) => Some(d),
+        Ok(Err(e)) => {
+            out.push(cx.finding(
+                format!("doc-reparsed:unpack:err({})", err_variant(&e)),
+                format!("second unpack of the same bytes returned Err({e:?})"),
+                None,
+            ));
+            None
+        }
+        Err(p) => {
+            out.push(cx.finding(
+                format!("doc-reparsed:unpack:panic({})", norm_panic(&p)),
+                format!("second unpack of the same bytes panicked: {p}"),
+                None,
+            ));
+            None
+        }
+    };
+    if let Some(d) = &doc_a {
+        check_structure("doc", d, &cx, st, outcomes, out);
+    }
+    if let Some(d) = &doc_b {
+        check_structure("doc-reparsed", d, &cx, st, outcomes, out);
+    }
+    // patterns
+    let mut expected: Vec<usize> = vec![];
+    for_each_pattern(plan, |pat| {
+        naive_search(text, pat, &mut expected);
+        st.patterns += 1;
+        if !expected.is_empty() && !pat.is_empty() {
+            st.patterns_present += 1;
+            st.occurrences += expected.len() as u64;
+            for p in expected.iter() {
+                if bounds.iter().any(|b| *b > *p && *b < *p + pat.len()) {
+                    st.occurrences_crossing_boundary += 1;
+                }
+            }
+        }
+        if let Some(d) = &doc_a {
+            check_one_pattern("doc", d, &cx, pat, &expected, st, outcomes, out);
+        }
+        if let Some(d) = &doc_b {
+            if reparse_full || pat.len() <= 2 || pat == text {
+                check_one_pattern("doc-reparsed", d, &cx, pat, &expected, st, outcomes, out);
+            }
+        }
+        if ref_patterns {
+            if let Some(r) = &reference {
+                st.ref_pattern_checks += 1;
+                check_one_pattern("refdoc", r, &cx, pat, &expected, st, outcomes, out);
+            }
+        }
+    });
+    // the re-parsed copy is reported only where it fails differently from the first parse
+    let first: HashSet<String> = out
+        .iter()
+        .filter_map(|f| f.sig.strip_prefix("doc:").map(|s| s.to_string()))
+        .collect();
+    out.retain(|f| match f.sig.strip_prefix("doc-reparsed:") {
+        Some(rest) => !first.contains(rest),
+        None => true,
+    });
+}
+
+/// Inputs outside the crate's API domain: both document types must refuse them with an error
+/// (never a panic), and agree with each other.  Returns (reference verdict, compressed verdict).
+pub fn check_rejection(
+    text: &[u32],
+    bounds: &[usize],
+    st: &mut DocStats,
+    out: &mut Vec<Finding>,
+) -> (bool, bool) {
+    let cx = DocCtx {
+        text,
+        bounds,
+        distinct: vec![],
+    };
+    st.calls += 2;
+    let r = construct_with::<ReferenceDocument>(text, bounds);
+    let c = construct_with::<CompressedDocument>(text, bounds);
+    let mut verdict = |subj: &str, x: &Result<Result<Vec<u8>, Error>, String>| -> bool {
+        match x {
+            Err(p) => {
+                out.push(cx.finding(
+                    format!("{subj}:construct:panic({}):invalid-boundaries", norm_panic(p)),
+                    format!("construct panicked on boundaries outside the API domain: {p}"),
+                    None,
+                ));
+                false
+            }
+            Ok(Ok(_)) => true,
+            Ok(Err(_)) => false,
+        }
+    };
+    let ra = verdict("refdoc", &r);
+    let ca = verdict("doc", &c);
+    if ra != ca && r.is_ok() && c.is_ok() {
+        out.push(cx.finding(
+            "doc:construct:accepts-differently-from-reference:invalid-boundaries".into(),
+            format!("ReferenceDocument accepted = {ra}, CompressedDocument accepted = {ca}"),
+            None,
+        ));
+    }
+    (ra, ca)
+}
+
+//////////////////////////////////////////// bit vectors ///////////////////////////////////////////
+
+pub struct BitOracle {
+    pub bits: Vec<bool>,
+    pub ranks: Vec<usize>,
+    pub ones: Vec<usize>,
+    pub zeros: Vec<usize>,
+}
+
+impl BitOracle {
+    pub fn new(bits: Vec<bool>) -> Self {
+        let mut ranks = Vec::with_capacity(bits.len() + 1);
+        let mut ones = vec![];
+        let mut zeros = vec![];
+        let mut r = 0;
+        for (i, b) in bits.iter().enumerate() {
+            ranks.push(r);
+            if *b {
+                r += 1;
+                ones.push(i);
+            } else {
+                zeros.push(i);
+            }
+        }
+        ranks.push(r);
+        BitOracle {
+            bits,
+            ranks,
+            ones,
+            zeros,
+        }
+    }
+
+    pub fn len(&self) -> usize {
+        self.bits.len()
+    }
+}
+
+#[derive(Clone, Copy, Debug, PartialEq, Eq, Hash, PartialOrd, Ord)]
+pub enum Op {
+    Access,
+    Rank,
+    Rank0,
+    Select,
+    Select0,
+    AccessRank,
+}
+
+impl Op {
+    pub const ALL: [Op; 6] = [
+        Op::Access,
+        Op::Rank,
+        Op::Rank0,
+        Op::Select,
+        Op::Select0,
+        Op::AccessRank,
+    ];
+
+    pub fn name(&self) -> &'static str {
+        match self {
+            Op::Access => "access",
+            Op::Rank => "rank",
+            Op::Rank0 => "rank0",
+            Op::Select => "select",
+            Op::Select0 => "select0",
+            Op::AccessRank => "access_rank",
+        }
+    }
+
+    pub fn from_name(s: &str) -> Option<Op> {
+        Op::ALL.iter().copied().find(|o| o.name() == s)
+    }
+}
+
+/// What a call answered.
+#[derive(Clone, Debug, PartialEq, Eq, Hash)]
+pub enum Ans {
+    None,
+    Bool(bool),
+    Num(usize),
+    Pair(bool, usize),
+    Panic(String),
+}
+
+impl BitOracle {
+    /// The admissible answers (one, except for access_rank at len where the crate's own
+    /// implementations differ and the trait says nothing).
+    pub fn expect(&self, op: Op, x: usize) -> (Ans, Option<Ans>) {
+        let n = self.len();
+        match op {
+            Op::Access => (
+                if x < n {
+                    Ans::Bool(self.bits[x])
+                } else {
+                    Ans::None
+                },
+                None,
+            ),
+            Op::Rank => (
+                if x <= n {
+                    Ans::Num(self.ranks[x])
+                } else {
+                    Ans::None
+                },
+                None,
+            ),
+            Op::Rank0 => (
+                if x <= n {
+                    Ans::Num(x - self.ranks[x])
+                } else {
+                    Ans::None
+                },
+                None,
+            ),
+            Op::Select => (
+                if x == 0 {
+                    Ans::Num(0)
+                } else if x <= self.ones.len() {
+                    Ans::Num(self.ones[x - 1] + 1)
+                } else {
+                    Ans::None
+                },
+                None,
+            ),
+            Op::Select0 => (
+                if x == 0 {
+                    Ans::Num(0)
+                } else if x <= self.zeros.len() {
+                    Ans::Num(self.zeros[x - 1] + 1)
+                } else {
+                    Ans::None
+                },
+                None,
+            ),
+            Op::AccessRank => {
+                if x < n {
+                    (Ans::Pair(self.bits[x], self.ranks[x]), None)
+                } else if x == n {
+                    (Ans::None, Some(Ans::Pair(false, self.ranks[n])))
+                } else {
+                    (Ans::None, None)
+                }
+            }
+        }
+    }
+
+    /// Is `x` an argument for which `op` must answer?
+    fn arg_class(&self, op: Op, x: usize) -> &'static str {
+        let n = self.len();
+        let limit = match op {
+            Op::Access | Op::AccessRank => {
+                if x < n {
+                    return "index-in-range";
+                }
+                n
+            }
+            Op::Rank | Op::Rank0 => {
+                if x < n {
+                    return "index-in-range";
+                }
+                if x == n {
+                    return "index-equals-len";
+                }
+                n
+            }
+            Op::Select => {
+                if x == 0 {
+                    return "k-zero";
+                }
+                if x <= self.ones.len() {
+                    return "k-in-range";
+                }
+                self.ones.len()
+            }
+            Op::Select0 => {
+                if x == 0 {
+                    return "k-zero";
+                }
+                if x <= self.zeros.len() {
+                    return "k-in-range";
+                }
+                self.zeros.len()
+            }
+        };
+        if x == limit {
+            "arg-equals-len"
+        } else if x <= n.saturating_add(64) {
+            "arg-just-past-range"
+        } else {
+            "arg-far-past-range"
+        }
+    }
+}
+
+fn call<BV: BitVector>(bv: &BV, op: Op, x: usize) -> Ans {
+    let r = vcore::catch(|| match op {
+        Op::Access => bv.access(x).map(Ans::Bool),
+        Op::Rank => bv.rank(x).map(Ans::Num),
+        Op::Rank0 => bv.rank0(x).map(Ans::Num),
+        Op::Select => bv.select(x).map(Ans::Num),
+        Op::Select0 => bv.select0(x).map(Ans::Num),
+        Op::AccessRank => bv.access_rank(x).map(|(a, r)| Ans::Pair(a, r)),
+    });
+    match r {
+        Ok(Some(a)) => a,
+        Ok(None) => Ans::None,
+        Err(p) => Ans::Panic(p),
+    }
+}
+
+/// Run-length form of a bit vector: the replay artefact.
+pub fn to_runs(bits: &[bool]) -> (bool, Vec<usize>) {
+    let first = bits.first().copied().unwrap_or(false);
+    let mut lens = vec![];
+    let mut cur = first;
+    let mut n = 0usize;
+    for b in bits {
+        if *b == cur {
+            n += 1;
+        } else {
+            lens.push(n);
+            cur = *b;
+            n = 1;
+        }
+    }
+    if n > 0 {
+        lens.push(n);
+    }
+    (first, lens)
+}
+
+pub fn from_runs(first: bool, lens: &[usize]) -> Vec<bool> {
+    let mut bits = Vec::with_capacity(lens.iter().sum());
+    let mut cur = first;
+    for l in lens {
+        for _ in 0..*l {
+            bits.push(cur);
+        }
+        cur = !cur;
+    }
+    bits
+}
+
+#[derive(Default, Clone, Debug)]
+pub struct BvStats {
+    pub calls: u64,
+    pub out_of_range_calls: u64,
+}
+
+/// The arguments that name nothing, for a vector of `n` bits whose in-range arguments end at
+/// `limit` (n for access, n for rank, #ones for select).
+fn out_of_range_args(n: usize, limit: usize) -> Vec<usize> {
+    let mut v = vec![
+        limit + 1,
+        limit + 2,
+        n + 1,
+        n + 2,
+        n + 63,
+        n + 64,
+        n + 65,
+        2 * n + 1,
+        u32::MAX as usize,
+        u32::MAX as usize + 1,
+        usize::MAX / 64,
+        (1usize << 62) + 2,
+        (1usize << 62) + 3,
+        usize::MAX / 2,
+        (1usize << 63) + 2,
+        (1usize << 63) + 3,
+        usize::MAX - 1,
+        usize::MAX,
+    ];
+    v.retain(|x| *x > limit);
+    v.sort();
+    v.dedup();
+    v
+}
+
+pub enum Probe {
+    /// every index / every k, plus the out-of-range arguments
+    Every,
+    /// a single call (replay)
+    One(Op, usize),
+}
+
+/// Check one implementation on one vector.  At most one finding per signature is produced (the
+/// one with the smallest argument).
+pub fn check_bv<BV: BitVector>(
+    name: &str,
+    oracle: &BitOracle,
+    probe: &Probe,
+    reparse: bool,
+    st: &mut BvStats,
+    outcomes: &mut HashSet<u64>,
+    out: &mut Vec<Finding>,
+) {
+    let bits = &oracle.bits;
+    let n = bits.len();
+    let mk = |sig: String, detail: String, op: Option<(Op, usize)>| -> Finding {
+        let (first, lens) = to_runs(bits);
+        let shown = if n <= 80 {
+            bits.iter().map(|b| if *b { '1' } else { '0' }).collect::<String>()
+        } else {
+            format!("runs(first={first}, lens={lens:?})")
+        };
+        Finding {
+            sig,
+            detail: format!("{name}: {detail}; vector of {n} bits = {shown}"),
+            case: json!({
+                "kind": "bv",
+                "impl": name,
+                "first": first,
+                "runs": lens,
+                "op": op.map(|(o, _)| o.name()),
+                "arg": op.map(|(_, x)| x as u64),
+            }),
+            size: (n, lens.len(), op.map(|(_, x)| x).unwrap_or(0)),
+        }
+    };
+    st.calls += 2;
+    let built = vcore::catch(|| {
+        let mut buf = Vec::new();
+        let mut builder = Builder::new(&mut buf);
+        let r = BV::construct(bits, &mut builder);
+        drop(builder);
+        r.map(|_| buf)
+    });
+    let buf = match built {
+        Ok(Ok(b)) => b,
+        Ok(Err(e)) => {
+            out.push(mk(
+                format!("bv:{name}:construct:err({})", err_variant(&e)),
+                format!("construct returned Err({e:?})"),
+                None,
+            ));
+            return;
+        }
+        Err(p) => {
+            out.push(mk(
+                format!("bv:{name}:construct:panic({})", norm_panic(&p)),
+                format!("construct panicked: {p}"),
+                None,
+            ));
+            return;
+        }
+    };
+    let mut shifted = vec![0x5au8];
+    let bufs: Vec<(&str, &[u8])> = if reparse {
+        shifted.extend_from_slice(&buf);
+        vec![("", &buf[..]), ("reparsed:", &shifted[1..])]
+    } else {
+        vec![("", &buf[..])]
+    };
+    let mut first_pass: HashSet<String> = HashSet::new();
+    for (tag, b) in bufs {
+        let parsed = vcore::catch(|| BV::parse(b).map(|x| x.0));
+        let bv = match parsed {
+            Ok(Ok(bv)) => bv,
+            Ok(Err(e)) => {
+                out.push(mk(
+                    format!("bv:{name}:{tag}parse:err({})", err_variant(&e)),
+                    format!("parse of freshly constructed bytes returned Err({e:?})"),
+                    None,
+                ));
+                continue;
+            }
+            Err(p) => {
+                out.push(mk(
+                    format!("bv:{name}:{tag}parse:panic({})", norm_panic(&p)),
+                    format!("parse panicked: {p}"),
+                    None,
+                ));
+                continue;
+            }
+        };
+        let mut seen: HashSet<String> = HashSet::new();
+        let first_pass = &mut first_pass;
+        let mut one = |op: Op, x: usize, st: &mut BvStats, out: &mut Vec<Finding>| {
+            st.calls += 1;
+            let got = call(&bv, op, x);
+            let (want, alt) = oracle.expect(op, x);
+            if got == want || Some(&got) == alt.as_ref() {
+                let h = match &got {
+                    Ans::None => 1u64,
+                    Ans::Bool(b) => 2 + *b as u64,
+                    Ans::Num(v) => (*v as u64).wrapping_mul(0x9e3779b97f4a7c15) ^ 5,
+                    Ans::Pair(a, r) => (*r as u64 * 2 + *a as u64).wrapping_mul(0x9e3779b97f4a7c15) ^ 7,
+                    Ans::Panic(_) => 0,
+                };
+                outcomes.insert(h ^ ((op as u64) << 56));
+                return;
+            }
+            let class = oracle.arg_class(op, x);
+            let how = match (&got, &want) {
+                (Ans::Panic(p), _) => format!("panic({})", norm_panic(p)),
+                (Ans::None, _) => "none-for-valid-argument".to_string(),
+                (_, Ans::None) => "answer-for-invalid-argument".to_string(),
+                _ => "wrong-answer".to_string(),
+            };
+            let plain = format!("bv:{name}:{}:{how}:{class}", op.name());
+            let sig = format!("bv:{name}:{tag}{}:{how}:{class}", op.name());
+            if tag.is_empty() {
+                first_pass.insert(plain.clone());
+            } else if first_pass.contains(&plain) {
+                // the re-parsed copy fails the same way as the first parse: one defect
+                return;
+            }
+            if seen.insert(sig.clone()) {
+                out.push(mk(
+                    sig,
+                    format!("{}({x}) = {got:?}; expected {want:?}", op.name()),
+                    Some((op, x)),
+                ));
+            }
+        };
+        // len / is_empty
+        let le = vcore::catch(|| (bv.len(), bv.is_empty()));
+        match le {
+            Ok((l, e)) => {
+                if l != n || e != (n == 0) {
+                    out.push(mk(
+                        format!("bv:{name}:{tag}len:wrong-answer"),
+                        format!("len() = {l}, is_empty() = {e}; expected {n}, {}", n == 0),
+                        None,
+                    ));
+                }
+            }
+            Err(p) => out.push(mk(
+                format!("bv:{name}:{tag}len:panic({})", norm_panic(&p)),
+                format!("len panicked: {p}"),
+                None,
+            )),
+        }
+        match probe {
+            Probe::One(op, x) => one(*op, *x, st, out),
+            Probe::Every => {
+                for x in 0..=n {
+                    one(Op::Access, x, st, out);
+                    one(Op::Rank, x, st, out);
+                    one(Op::Rank0, x, st, out);
+                    one(Op::AccessRank, x, st, out);
+                }
+                for k in 0..=oracle.ones.len() {
+                    one(Op::Select, k, st, out);
+                }
+                for k in 0..=oracle.zeros.len() {
+                    one(Op::Select0, k, st, out);
+                }
+                for op in Op::ALL {
+                    let limit = match op {
+                        Op::Access | Op::AccessRank | Op::Rank | Op::Rank0 => n,
+                        Op::Select => oracle.ones.len(),
+                        Op::Select0 => oracle.zeros.len(),
+                    };
+                    for x in out_of_range_args(n, limit) {
+                        st.out_of_range_calls += 1;
+                        one(op, x, st, out);
+                    }
+                }
+            }
+        }
+    }
+}
+
+pub const IMPLS: [&str; 4] = ["reference", "rrr", "cf_rrr", "sparse"];
+
+pub fn check_bv_named(
+    name: &str,
+    oracle: &BitOracle,
+    probe: &Probe,
+    reparse: bool,
+    st: &mut BvStats,
+    outcomes: &mut HashSet<u64>,
+    out: &mut Vec<Finding>,
+) {
+    use scrunch::bit_vector as bv;
+    match name {
+        "reference" => check_bv::<bv::ReferenceBitVector<'static>>(
+            name, oracle, probe, reparse, st, outcomes, out,
+        ),
+        "rrr" => {
+            check_bv::<bv::rrr::BitVector<'static>>(name, oracle, probe, reparse, st, outcomes, out)
+        }
+        "cf_rrr" => check_bv::<bv::cf_rrr::BitVector<'static>>(
+            name, oracle, probe, reparse, st, outcomes, out,
+        ),
+        "sparse" => check_bv::<bv::sparse::BitVector<'static>>(
+            name, oracle, probe, reparse, st, outcomes, out,
+        ),
+        _ => panic!("unknown bit vector implementation {name}"),
+    }
+}
+
+/////////////////////////////////////////////// replay //////////////////////////////////////////////
+
+/// Re-run exactly one recorded case, without the explorer.
+pub fn run_case(case: &Value) -> Vec<Finding> {
+    let mut out = vec![];
+    let mut outcomes = HashSet::new();
+    match case["kind"].as_str() {
+        Some("doc") => {
+            let text: Vec<u32> = case["text"]
+                .as_array()
+                .map(|a| a.iter().map(|x| x.as_u64().unwrap() as u32).collect())
+                .unwrap_or_default();
+            let bounds: Vec<usize> = case["bounds"]
+                .as_array()
+                .map(|a| a.iter().map(|x| x.as_u64().unwrap() as usize).collect())
+                .unwrap_or_default();
+            let plan = match case["pattern"].as_array() {
+                Some(a) => PatPlan::Single(a.iter().map(|x| x.as_u64().unwrap() as u32).collect()),
+                None => PatPlan::None,
+            };
+            let mut st = DocStats::default();
+            if case["invalid"].as_bool() == Some(true) {
+                check_rejection(&text, &bounds, &mut st, &mut out);
+                out.extend(domain_findings(&text, &bounds));
+            } else {
+                check_doc(
+                    &text,
+                    &bounds,
+                    &plan,
+                    true,
+                    true,
+                    &mut st,
+                    &mut outcomes,
+                    &mut out,
+                );
+            }
+        }
+        Some("bv") => {
+            let first = case["first"].as_bool().unwrap_or(false);
+            let lens: Vec<usize> = case["runs"]
+                .as_array()
+                .map(|a| a.iter().map(|x| x.as_u64().unwrap() as usize).collect())
+                .unwrap_or_default();
+            let oracle = BitOracle::new(from_runs(first, &lens));
+            let name = case["impl"].as_str().unwrap_or("reference").to_string();
+            let probe = match (case["op"].as_str(), case["arg"].as_u64()) {
+                (Some(op), Some(x)) => Probe::One(Op::from_name(op).expect("op"), x as usize),
+                _ => Probe::One(Op::Rank, 0),
+            };
+            let mut st = BvStats::default();
+            check_bv_named(&name, &oracle, &probe, true, &mut st, &mut outcomes, &mut out);
+        }
+        _ => panic!("replay case has no known kind"),
+    }
+    out
+}
+
+/// The property quantifies over the empty text and over empty records; the crate's API refuses
+/// both with an error.  Reported under their own signatures (a refusal, not a wrong answer).
+pub fn domain_findings(text: &[u32], bounds: &[usize]) -> Vec<Finding> {
+    let mut out = vec![];
+    let r = construct_with::<CompressedDocument>(text, bounds);
+    let refused = matches!(r, Ok(Err(_)));
+    if !refused {
+        return out;
+    }
+    let err = match r {
+        Ok(Err(e)) => format!("{e:?}"),
+        _ => String::new(),
+    };
+    let what = if text.is_empty() {
+        Some("empty-text")
+    } else if bounds.first() == Some(&0)
+        && bounds.windows(2).all(|w| w[0] <= w[1])
+        && bounds.iter().all(|b| *b <= text.len())
+        && (bounds.windows(2).any(|w| w[0] == w[1]) || bounds.last() == Some(&text.len()))
+    {
+        Some("empty-record")
+    } else {
+        None
+    };
+    if let Some(what) = what {
+        let mut case = doc_case(text, bounds, None);
+        case["invalid"] = json!(true);
+        out.push(Finding {
+            sig: format!("doc:construct:refuses:{what}"),
+            detail: format!(
+                "CompressedDocument::construct returned Err({err}) for text={text:?} bounds={bounds:?}; a plain scan handles this division of the text (the property quantifies over it)"
+            ),
+            case,
+            size: (text.len(), bounds.len(), 0),
+        });
+    }
+    out
+}
